@@ -614,7 +614,23 @@ func C15Step(si *engine.StepInfo, pre, post *Snap) []engine.Finding {
 				out = append(out, fd("C15", "assignment", cmpb(existed, "provider-already-holds-or-timed-out-on-the-order", "duplicate-provider"), fmt.Sprintf("order %d: new shard %d assigned to %s, which already has a shard of this order", oid, sh.Id, si.W.NameOf(sh.Sp))))
 			}
 			seen[sh.Sp] = true
-			if why := eligibleIn(pre, sh.Sp, sh.Size_); why != "" {
+			why := eligibleIn(pre, sh.Sp, sh.Size_)
+			if why == "not-enough-free-capacity" && reused {
+				// a force-push replaces the current version: the capacity of the provider's shard of that version is
+				// released before the new shard is pledged (Complete -> UpdateMeta -> TerminateOrder -> ShardPledge)
+				freed := uint64(0)
+				if m, ok := pre.Metas[post.Orders[oid].DataId]; ok {
+					for _, id := range pre.Orders[m.OrderId].Shards {
+						if old, ok := pre.Shards[id]; ok && old.Sp == sh.Sp && old.Status == ordertypes.ShardCompleted {
+							freed += old.Size_
+						}
+					}
+				}
+				if p, ok := pre.Pledges[sh.Sp]; ok && uint64(p.TotalStorage-p.UsedStorage)+freed >= sh.Size_ {
+					why = ""
+				}
+			}
+			if why != "" {
 				out = append(out, fd("C15", "assignment", cmpb(reused, "force-push-reuse:", "")+why, fmt.Sprintf("order %d: new shard %d assigned to %s: %s", oid, sh.Id, si.W.NameOf(sh.Sp), why)))
 			}
 		}
